@@ -53,7 +53,9 @@ RULE = (
     "ndarray RGB, ScalarImage, general vector Image, OpticalImage, scalar series, optical series; 3-D: ndarray, scalar Image, scalar series} "
     "the correction accepts x dtype {uint8, uint16, float32, float64} x shapes; BFS over (correction, input) with ops overwrite in {F, T} to "
     "the stated depth with de-duplication + all sequences of length <= 2 without; successors of an overwrite that changed the array shape "
-    "are not expanded (shape-configured corrections). compose roots: ordered correction pairs x image kinds x dtypes. Non-trivial = a "
+    "are not expanded (shape-configured corrections). compose roots: ordered correction pairs x image kinds x dtypes. reconfigure roots: "
+    "a USED correction object re-configured through its own save()/load() (or re-assignment of the public scaling) to another configuration "
+    "of its family (illumination pattern<->unit, curvature bulge->zero->stretch, type uint8->uint16) == a fresh object so configured. Non-trivial = a "
     "transition whose corrected data differs from the raw input in values, dtype or shape, or one that evaluates the neutral clause; "
     "distinct = distinct (config, kind, dtype, shape, call history)."
 )
@@ -185,10 +187,18 @@ def cases(tier):
             for dt in DTYPES:
                 for shape in SHAPES[tier]["2d"][-2:]:
                     out.append({"kind": "compose", "pair": [c1, c2], "input": kind, "dtype": dt, "shape": list(shape)})
+    # re-configuration of a USED object (through the class's own load(), or by re-assigning the
+    # public parameter the harness configures it with): it then is the correction with the new
+    # parameters, exactly as a fresh object configured that way
+    for c1, c2, how in RECONF:
+        for kind in CONFIGS[c1]["kinds"]:
+            for dt in ("float64", "uint8"):
+                shape = SHAPES[tier][CONFIGS[c1]["shapes"]][-1]
+                out.append({"kind": "reconfigure", "pair": [c1, c2], "how": how, "input": kind, "dtype": dt, "shape": list(shape)})
     order = list(CONFIGS)
     out.sort(
         key=lambda c: (
-            c["kind"] != "bfs",
+            {"bfs": 0, "reconfigure": 1}.get(c["kind"], 2),
             CONFIGS[c["config"]]["weight"] == "heavy" if c["kind"] == "bfs" else False,
             int(np.prod(c["shape"])),
             order.index(c["config"]) if c["kind"] == "bfs" else 0,
@@ -849,8 +859,89 @@ def run_compose(case, r):
     r.outcome((case["pair"], kind, dtype, shape, digest(a.img)))
 
 
+# (rotation, translation, affine and generalised-perspective corrections do not offer save():
+# NotImplementedError -- they cannot be re-configured through the library and are not listed)
+RECONF = [
+    ("illumination/rgb-pattern", "illumination/rgb-unit", "load"),
+    ("illumination/rgb-pattern", "illumination/rgb-unit", "assign"),
+    ("illumination/rgb-unit", "illumination/rgb-pattern", "load"),
+    ("illumination/hsl-scalar-pattern", "illumination/hsl-scalar-unit", "assign"),
+    ("curvature/bulge", "curvature/zero", "load"),
+    ("curvature/zero", "curvature/stretch", "load"),
+    ("type/uint8", "type/uint16", "load"),
+]
+
+
+def run_reconfigure(case, r):
+    import os
+
+    n1, n2 = case["pair"]
+    how, kind, dtype, shape = case["how"], case["input"], case["dtype"], tuple(case["shape"])
+    kc = KCLASS[kind]
+    cfg2 = CONFIGS[n2]
+    cell = f"C10/reconfigured/{cfg2['cell']}/{how}/{kc}"
+    special = CONFIGS[n1]["shapes"]
+    env.reseed(0)
+    c = build(n1, shape)
+    x0 = make_input(kind, shape, dtype, special)
+    try:
+        c(copy.deepcopy(x0), overwrite=False)
+        c(copy.deepcopy(x0), overwrite=True)
+    except Exception as e:  # noqa: BLE001
+        if legit_refusal(n1, e):
+            r.ok()
+            return
+        raise
+    target = build(n2, shape)
+    if how == "load":
+        import pathlib
+
+        path = pathlib.Path(env.scratch_dir()) / f"c10-reconf-{os.getpid()}-{abs(hash((n1, n2, kind, dtype))) % 10**9}.npz"
+        try:
+            target.save(path)
+            c.load(path)
+        finally:
+            if os.path.exists(path):
+                os.remove(path)
+    else:
+        fam = n2.split("/")[0]
+        assert fam == "illumination"
+        c.colorspace = target.colorspace
+        c.local_scaling = copy.deepcopy(target.local_scaling)
+    r.count("transitions", 4)
+    r.count("traces", 1)
+    r.count("states", 3)
+    for ow in (False, True):
+        env.reseed(0)
+        xa, xb = copy.deepcopy(x0), copy.deepcopy(x0)
+        raw = data_of(x0).copy()
+        try:
+            want = build(n2, shape)(xb, overwrite=ow)
+        except Exception as e:  # noqa: BLE001
+            if legit_refusal(n2, e):
+                r.ok()
+                continue
+            raise
+        env.reseed(0)
+        try:
+            got = c(xa, overwrite=ow)
+        except Exception as e:  # noqa: BLE001
+            r.fail(cell, "a used correction re-configured with new parameters can be applied like a fresh one", overwrite=ow, exception=f"{type(e).__name__}: {e}"[:300])
+            continue
+        gd, wd = data_of(got), data_of(want)
+        r.check(same(gd, wd), cell, "a used correction object re-configured with new parameters gives the pixel data of a fresh object configured with them", overwrite=ow, first=n1, got_dtype=str(gd.dtype), want_dtype=str(wd.dtype), max_abs=float(np.max(np.abs(gd.astype(np.float64) - wd.astype(np.float64)))) if gd.shape == wd.shape else None)
+        if not isinstance(got, np.ndarray):
+            r.check(meta_of(got) == meta_of(want), cell, "... and its metadata", overwrite=ow, got=meta_of(got), want=meta_of(want))
+        if cfg2["neutral"]:
+            r.check(values_unchanged(gd, raw, cfg2["neutral"]), cell + "/neutral", "re-configured with neutral parameters it leaves pixel values unchanged", overwrite=ow, first=n1)
+    r.nontriv((case["pair"], how, kind, dtype))
+    r.outcome((case["pair"], how, kind, dtype))
+
+
 def run_case(case, r):
-    if case["kind"] == "bfs":
+    if case["kind"] == "reconfigure":
+        run_reconfigure(case, r)
+    elif case["kind"] == "bfs":
         run_bfs(case, r)
     else:
         run_compose(case, r)
